@@ -1502,3 +1502,121 @@ Proof.
   - rewrite lookup_alter, Hr. reflexivity.
   - now rewrite lookup_alter_ne by auto.
 Qed.
+
+(* ---- the extension table ---- *)
+Definition ext_pick (ext : list (string * string)) (o : string) : string :=
+  match extension_of ext o with Some e => e | None => o end.
+
+Lemma extension_of_in ext o e : extension_of ext o = Some e -> (o, e) ∈ ext.
+Proof.
+  unfold extension_of. induction ext as [|[a b] ext IH]; simpl; [discriminate|].
+  destruct (String.eqb_spec a o) as [->|Ne]; simpl.
+  - intros [= <-]. apply elem_of_cons. auto.
+  - intros H. apply elem_of_cons. right. auto.
+Qed.
+
+Lemma extension_of_none ext o : extension_of ext o = None -> o ∉ List.map fst ext.
+Proof.
+  unfold extension_of. induction ext as [|[a b] ext IH]; simpl; [intros _ H; inversion H|].
+  destruct (String.eqb_spec a o) as [->|Ne]; simpl; [discriminate|].
+  intros H Hin. apply elem_of_cons in Hin as [->|Hin]; [congruence|]. now apply IH.
+Qed.
+
+Lemma snd_nodup_fst {A B} (l : list (A * B)) a b e :
+  NoDup (List.map snd l) -> (a, e) ∈ l -> (b, e) ∈ l -> a = b.
+Proof.
+  induction l as [|[x y] l IH]; intros ND Ha Hb; [inversion Ha|].
+  simpl in ND. apply NoDup_cons in ND as [Ny ND].
+  apply elem_of_cons in Ha as [Ea|Ha]; apply elem_of_cons in Hb as [Eb|Hb].
+  - congruence.
+  - injection Ea as -> ->. exfalso. apply Ny. apply elem_of_list_In, in_map_iff. exists (b, y).
+    split; auto. now apply elem_of_list_In.
+  - injection Eb as -> ->. exfalso. apply Ny. apply elem_of_list_In, in_map_iff. exists (a, y).
+    split; auto. now apply elem_of_list_In.
+  - auto.
+Qed.
+
+Lemma ext_pick_nodup ext olds : NoDup olds -> NoDup (List.map snd ext) ->
+  (forall o e, (o, e) ∈ ext -> e ∉ olds) -> NoDup (List.map (ext_pick ext) olds).
+Proof.
+  intros ND NDe Hout. induction olds as [|o olds IH]; simpl; [apply NoDup_nil_2|].
+  apply NoDup_cons in ND as [No ND].
+  assert (Hout' : forall o' e, (o', e) ∈ ext -> e ∉ olds).
+  { intros o' e H Hin. apply (Hout o' e H). apply elem_of_cons. auto. }
+  apply NoDup_cons. split; [|apply IH; auto].
+  intros Hin. apply elem_of_list_In, in_map_iff in Hin as (o' & E & Ho'). apply elem_of_list_In in Ho'.
+  unfold ext_pick in E.
+  destruct (extension_of ext o') as [e'|] eqn:E1; destruct (extension_of ext o) as [e|] eqn:E2.
+  - subst e'. apply extension_of_in in E1, E2. pose proof (snd_nodup_fst ext o' o e NDe E1 E2). congruence.
+  - subst e'. apply extension_of_in in E1. apply (Hout o' o E1). apply elem_of_cons. auto.
+  - subst o'. apply extension_of_in in E2. apply (Hout o e E2). apply elem_of_cons. auto.
+  - congruence.
+Qed.
+
+(* ---- the loop invariant of DeleteConflicts ---- *)
+Record rs_ok (s0 s : state) (u : string) (i : N) (olds : list string) (ext : list (string * string))
+       (F : list string) : Prop := {
+  rs_inv : RepoInv s;
+  rs_absent : absent s F;
+  rs_data : data_of s u = data_of s0 u;
+  rs_olds : forall o, o ∈ olds -> node_state s o i true;
+  rs_ext : forall o e, (o, e) ∈ ext -> node_state s e i false /\ e ∉ olds /\ e ∉ F;
+  rs_ext_snd : NoDup (List.map snd ext);
+  rs_ext_fst : NoDup (List.map fst ext)
+}.
+
+Lemma rs_weaken s0 s u i olds ext F F' : (forall f, f ∈ F' -> f ∈ F) -> rs_ok s0 s u i olds ext F -> rs_ok s0 s u i olds ext F'.
+Proof.
+  intros Sub [A B C D E G H]. constructor; auto.
+  - intros f Hf. apply B. auto.
+  - intros o e Hoe. destruct (E o e Hoe) as (E1 & E2 & E3). repeat split; auto.
+Qed.
+
+Lemma rs_extend_step s0 u i olds conf : forall s ext Frest,
+  u ∉ (List.map snd conf ++ Frest)%list -> NoDup (List.map snd conf ++ Frest)%list ->
+  rs_ok s0 s u i olds ext (List.map snd conf ++ Frest)%list ->
+  rs_ok s0 (fst (resolve_extend repaired s olds ext conf)) u i olds
+        (snd (resolve_extend repaired s olds ext conf)) Frest.
+Proof.
+  induction conf as [|[k f] conf IH]; intros s ext Frest Hu ND OK; simpl in *.
+  - exact OK.
+  - apply NoDup_cons in ND as [Nf ND]. apply not_elem_of_cons in Hu as [Nuf Hu].
+    assert (OK' : rs_ok s0 s u i olds ext (List.map snd conf ++ Frest)%list).
+    { eapply rs_weaken; [|exact OK]. intros g Hg. apply elem_of_cons. auto. }
+    destruct (nth_error olds k) as [old|] eqn:Ek; [|now apply IH].
+    destruct (extension_of ext old) eqn:Ex; [now apply IH|].
+    assert (Hold : old ∈ olds) by (apply elem_of_list_In; eapply nth_error_In; eauto).
+    destruct OK as [I A D O E S1 S2].
+    pose proof (O old Hold) as NSold.
+    destruct (A f) as [Hne Hcu]; [apply elem_of_cons; auto|].
+    pose proof (inv_new_version s old ("conflict-" ++ old) None f I (conflict_branch_not_master old)
+                  (fun _ => conj Hne Hcu)) as I1.
+    pose proof (new_version_frame repaired s old ("conflict-" ++ old) None f) as Fr.
+    pose proof (new_version_new_node repaired s old ("conflict-" ++ old) f) as New.
+    pose proof (fun p lk => new_version_node_state repaired s old ("conflict-" ++ old) f p i lk I) as Keep.
+    pose proof (new_version_u2v_other repaired s old ("conflict-" ++ old) None f) as U1.
+    pose proof (new_version_data repaired s old ("conflict-" ++ old) f u Nuf) as D1.
+    destruct (do_new_version repaired s old ("conflict-" ++ old) None f) as [s1 o] eqn:Enw. simpl in *.
+    assert (Hne_u2v : forall p lk, node_state s p i lk -> p <> f).
+    { intros p lk NS ->. destruct (node_state_u2v _ _ _ _ NS). congruence. }
+    destruct o as [cu| | |].
+    + (* a deletion node was created *)
+      destruct NSold as (ro & vo & no & _ & Hio & _).
+      destruct (New cu i Hio eq_refl) as [-> NSf].
+      apply IH; auto. constructor; auto.
+      * intros g Hg. destruct (A g) as [G1 G2]; [apply elem_of_cons; auto|]. split; auto.
+        apply U1; auto. intros ->. contradiction.
+      * congruence.
+      * intros o' Ho'. apply Keep; eauto.
+      * intros o' e Hoe. apply elem_of_cons in Hoe as [[= -> ->]|Hoe].
+        -- split; [exact NSf|]. split; [|exact Nf]. intros Hin. apply (Hne_u2v f true (O f Hin)). reflexivity.
+        -- destruct (E o' e Hoe) as (E1 & E2 & E3). apply not_elem_of_cons in E3 as [E3 E4].
+           split; [apply Keep; eauto|]. split; auto.
+      * simpl. apply NoDup_cons. split; auto. intros Hin.
+        apply elem_of_list_In, in_map_iff in Hin as ([o' e] & Ee & Hin). simpl in Ee. subst e.
+        apply elem_of_list_In in Hin. destruct (E o' f Hin) as (_ & _ & E3). apply E3. apply elem_of_cons. auto.
+      * simpl. apply NoDup_cons. split; auto. now apply extension_of_none.
+    + rewrite (Fr eq_refl). now apply IH.
+    + rewrite (Fr eq_refl). now apply IH.
+    + rewrite (Fr eq_refl). now apply IH.
+Qed.
